@@ -220,6 +220,24 @@ def check_export(ctx, score_data, mf, mode, velocity, policy, min_ppq):
                     ctx.violation("time-signature-missing-under-time_sig_change", f"track {ti}: {got_ts[:6]}, part {p.id} notates {sorted(exp_ts)[:6]} "
                                   f"(measures of irregular length begin at {sorted(irregular)[:6]})", w)
                     return None
+                # ... and what the file says is in force where a measure of regular length begins is what the score notates there
+                # (only when the track holds this part's signatures alone and no two of them share a tick)
+                ticks_ = [g[0] for g in got_ts]
+                alone = len(models) == 1
+                if alone and len(set(ticks_)) == len(ticks_):
+                    for ms_ in timemaps.objects_of(p, S.Measure):
+                        s_ = int(ms_.start.t)
+                        if s_ in irregular:
+                            continue
+                        (b_, bt_, _), amb_ = sigmaps.ts_at(ds, s_)
+                        if amb_:
+                            continue
+                        upto = [g for g in got_ts if g[0] <= int(tick(m, s_))]
+                        ctx.check()
+                        if upto and (upto[-1][1], upto[-1][2]) != (b_, bt_):
+                            ctx.violation("time-signature-in-force-wrong-after-irregular-measure", f"track {ti}: at the measure beginning at {s_} the file says "
+                                          f"{upto[-1][1]}/{upto[-1][2]}, the score {b_}/{bt_}; file {got_ts[:6]}", w)
+                            return None
         tempos = timemaps.objects_of(p, S.Tempo)
         got_tp = sorted((t, msg.tempo) for t, msg in evs[0] if msg.type == "set_tempo")
         for tp in tempos:
